@@ -87,6 +87,41 @@ type cacheFile struct {
 	ComputeS  float64            `json:"compute_s"`
 }
 
+type borrow struct {
+	From, Prefix, As, Text string
+	Floor                  int
+}
+
+var borrows = map[string][]borrow{
+	"C01": {{"C03", "C03.R8|SetERC20ToTokenDenom", "C01.R9", "token identity of pending transfers: pool entries and batches name their token by ERC20 contract only, so the contract -> denom binding is written only when the contract has no binding yet (otherwise refunds, burns and mints of pending transfers move another denom); decided by the rule C03.R8", 1}},
+	"C03": {
+		{"C17", "C17.R1|saveJob|the job id", "C03.R9", "a create request cannot touch another account's job: the id asked about is the id written (decided by the rule C17.R1)", 1},
+		{"C17", "C17.R1|AddNewJob|the job id", "C03.R9", "a create request cannot touch another account's job: the id asked about is the id written (decided by the rule C17.R1)", 1},
+		{"C16", "C16.R5|validateCreateDenom|", "C03.R10", "a create request cannot re-create (and thereby take back) a denomination that exists: existence is asked for the very name being created (decided by the rule C16.R5)", 2},
+	},
+	"C13": {{"C04", "C04.R3|AddEvidence|", "C13.R4", "the 10 % floor counts each attesting validator once: a validator's evidence entry is replaced, never duplicated (VerifyEvidence adds a validator's shares once per entry); decided by the rule C04.R3", 1}},
+	"C15": {{"C01", "C01.R3|(x/skyway/keeper.Keeper).RemoveFromOutgoingPoolAndRefund", "C15.R6", "the tax recorded with the transfer is what a cancellation returns: the refund is the stored amount plus the stored tax, not a recomputation under the current settings; decided by the rule C01.R3", 1}},
+}
+
+var lenderMemo = map[string]*Result{}
+
+func lenderResult(w *World, id string) *Result {
+	if r, ok := lenderMemo[id]; ok {
+		return r
+	}
+	lo := newOut(w, id)
+	func() {
+		defer func() {
+			if r := recover(); r != nil {
+				lo.R.Panic = fmt.Sprintf("%v", r)
+			}
+		}()
+		registry[id](w, lo)
+	}()
+	lenderMemo[id] = lo.R
+	return lo.R
+}
+
 func runProperty(w *World, id string) (res *Result) {
 	o := newOut(w, id)
 	defer func() {
@@ -101,6 +136,25 @@ func runProperty(w *World, id string) (res *Result) {
 		return o.R
 	}
 	f(w, o)
+	// obligations that decide a clause shared with another property are evaluated by that property's rule and
+	// listed here under this property's own rule id
+	for _, b := range borrows[id] {
+		lend := lenderResult(w, b.From)
+		n := 0
+		for _, ob := range lend.Obligations {
+			if strings.HasPrefix(ob.Key, b.Prefix) && !ob.Note {
+				ob.Key = b.As + "|" + strings.TrimPrefix(ob.Key, ob.Rule+"|")
+				ob.Rule = b.As
+				o.add(ob)
+				n++
+			}
+		}
+		o.Rule(b.As, b.Text)
+		o.Count(b.As+" obligations shared with "+b.From+" ("+b.Prefix+")", n, b.Floor)
+		if lend.Panic != "" {
+			o.R.Panic = "shared rule of " + b.From + ": " + lend.Panic
+		}
+	}
 	sort.SliceStable(o.R.Obligations, func(i, j int) bool { return o.R.Obligations[i].Key < o.R.Obligations[j].Key })
 	sort.Strings(o.R.Analysed)
 	return o.R
